@@ -416,7 +416,20 @@ Definition enter_prevote_wait (h r : N) (s : nstate) : nstate :=
   else if negb (any_of (pw s) (get_vs s r Prevote)) then panic s
   else set_rstep SPrevoteWait (set_round r (sched h r SPrevoteWait s)).
 
-Definition do_prevote (s : nstate) : nstate :=
+(** doPrevote's stale-lock scan (fix 7b58637): some round in (LockedRound, Round] has a +2/3
+    prevote majority for a value other than the locked block (a nil polka counts) *)
+Fixpoint stale_scan (s : nstate) (r : N) (n : nat) : bool :=
+  match n with
+  | O => false
+  | S m => match maj_of (get_vs s r Prevote) with
+           | Some b => if negb (hashes_to (locked s) (bh b)) then true else stale_scan s (r - 1) m
+           | None => stale_scan s (r - 1) m
+           end
+  end.
+Definition stale_lock (s : nstate) : bool :=
+  stale_scan s (round s) (N.to_nat (round s - locked_round s)).
+
+Definition do_prevote_locked (s : nstate) : nstate :=
   match locked s with
   | Some b => sign_vote Prevote {| bh := b_hash b; bp := hdr_of (locked_parts s) |} s
   | None =>
@@ -426,6 +439,12 @@ Definition do_prevote (s : nstate) : nstate :=
                 else sign_vote Prevote {| bh := b_hash b; bp := hdr_of (pparts s) |} s
     end
   end.
+
+Definition do_prevote (s : nstate) : nstate :=
+  do_prevote_locked (match locked s with
+                     | Some _ => if stale_lock s then unlock s else s
+                     | None => s
+                     end).
 
 Definition enter_prevote (h r : N) (s : nstate) : nstate :=
   if negb (height s =? h) || (r <? round s) || ((round s =? r) && step_le SPrevote (rstep s)) then s
@@ -574,6 +593,7 @@ Definition add_vote (peer : N) (v : vote) (s : nstate) : nstate :=
     let h := height s in
     let '(s1, added) := hvs_add peer v s in
     if negb added then s1 else
+    if step_eqb (rstep s1) SCommit then s1 else       (* commit step: the vote is only recorded (fix c2849ff) *)
     match v_type v with
     | Prevote =>
       let prevotes := get_vs s1 (v_round v) Prevote in
